@@ -76,7 +76,7 @@ H2TDefault(n, e, e2) == H("new_problem", n, 1,
    << NewProblem(TypeByName(n), e), AddFluent(F(n), e2), AddFluent(G(n), ENone), SetInit(G(n), e2) >>)
 H2Default(n, e, e2) == H("add_fluent", n, 3,
    << P0, AddFluent(Other(n), Good(IF n = "bool" THEN "U" ELSE "bool")), AddFluent(F(n), e), AddFluent(G(n), e2),
-      SetInit(F(n), Good2(n)) >>)
+      SetInit(Other(n), Good2(IF n = "bool" THEN "U" ELSE "bool")) >>)
 H2SetInit(n, e, e2) == H("set_init", n, 5,
    << P0, AddFluent(F(n), Good(n)), AddFluent(G(n), ENone), SetInit(F(n), Good2(n)),
       SetInit(F(n), e), SetInit(F(n), e2), SetInit(G(n), e) >>)
